@@ -612,7 +612,95 @@ class MixFactory(StrategyFactory):
         return "MixFactory"
 
 
-OPTION_NAMES = ("iterative", "inferral", "symmetry", "factory", "factory2", "finite", "finite-mixed", "two", "oneway")
+class SplitFirstOpaque(SplitFirst):
+    """SplitFirst that declines on the start class Lang(0, ""): that class can then only be specified backwards, as the
+    quotient of Lang(0, x) = Atom(x) x Lang(0, "") where Lang(0, x) is the complement of a predecessor's split."""
+
+    def _kids(self, c):
+        if c.q == 0 and c.prefix == "" and not c.atom:
+            return None
+        return super()._kids(c)
+
+
+class OracleVer(VerificationStrategy):
+    """Verifies Lang(p, "") for p != 0 and counts it by its own means (brute force; exact rational generating function
+    from the linear system of the automaton).  No pack."""
+
+    def __init__(self):
+        VerificationStrategy.__init__(self)
+
+    def verified(self, c):
+        return (not c.atom) and c.prefix == "" and c.q != 0 and not c.is_empty()
+
+    def formal_step(self):
+        return "oracle"
+
+    def get_terms(self, c, n):
+        return Counter(c.get_parameters(w) for w in c.objects_of_size(n))
+
+    def get_objects(self, c, n):
+        d = defaultdict(list)
+        for w in c.objects_of_size(n):
+            d[c.get_parameters(w)].append(w)
+        return d
+
+    def random_sample_object_of_size(self, c, n, **parameters):
+        return list(c.objects_of_size(n, **parameters))[0]
+
+    def get_genf(self, c, funcs=None):
+        x = sympy.var("x")
+        wa = x
+        for p in c.extra_parameters:
+            wa = wa * sympy.var(p)
+        L = [sympy.Symbol("L%d" % q) for q in range(c.t.S)]
+        eqs = [sympy.Eq(L[q], (1 if c.t.acc[q] else 0) + wa * L[c.t.delta[q][0]] + x * L[c.t.delta[q][1]]) for q in range(c.t.S)]
+        sol = sympy.solve(eqs, L, dict=True)[0]
+        return sympy.simplify(sol[L[c.q]])
+
+    def to_jsonable(self):
+        d = super().to_jsonable()
+        d.pop("ignore_parent")
+        return d
+
+    @classmethod
+    def from_dict(cls, d):
+        return cls()
+
+    def __repr__(self):
+        return "OracleVer()"
+
+    def __str__(self):
+        return "OracleVer"
+
+
+class BackFactory(StrategyFactory):
+    """On the start class Lang(0, "") yields, for every predecessor state p != 0 of state 0, the split rule of Lang(p, "")
+    and its verification: rules whose parent is a different class."""
+
+    def __call__(self, c):
+        if c.atom or c.prefix != "" or c.q != 0:
+            return
+        for p in range(1, c.t.S):
+            if 0 in c.t.delta[p] and p in c.t.live:
+                P = Lang(c.t, p, "", False, c.stats)
+                yield SplitFirst()(P)
+                yield OracleVer()(P)
+
+    def to_jsonable(self):
+        return super().to_jsonable()
+
+    @classmethod
+    def from_dict(cls, d):
+        return cls()
+
+    def __repr__(self):
+        return "BackFactory()"
+
+    def __str__(self):
+        return "BackFactory"
+
+
+OPTION_NAMES = ("iterative", "inferral", "symmetry", "factory", "factory2", "finite", "finite-mixed", "two", "oneway", "opaque")
 
 
 def mkpack(opts=(), finite=None):
@@ -631,6 +719,9 @@ def mkpack(opts=(), finite=None):
     exp = [[MixFactory("factory2" in opts)]] if ("factory" in opts or "factory2" in opts) else [[SplitFirst()]]
     if "two" in opts:
         exp = [exp[0] + [SplitTwo()]]
+    if "opaque" in opts:
+        exp = [[SplitFirstOpaque(), BackFactory()]]
+        ver = ver + [OracleVer()]
     # with a factory in the pack the prefix is peeled by the factory's ready rule, not by an initial strategy
     init = [] if ("factory" in opts or "factory2" in opts) else [PeelPrefix()]
     if "oneway" in opts:
